@@ -137,9 +137,15 @@ Definition col_var (c : vec) : K :=
 Definition col_sdev (c : vec) : K := ksqrt (col_var c).
 Definition col_rms (c : vec) : K :=
   let: (s, n) := fsum_cnt (fun x => kmul x x) c in ksqrt (kdiv s (kofnat n)).
-(* MatrixColumnMinMax: seeded with row 0 whatever it holds; later MISSING rows skipped *)
-Definition col_minmax (c : vec) : K * K :=
+(* MatrixColumnMinMax: seeded with the first non-MISSING value (the last row if all are
+   MISSING); later MISSING rows skipped *)
+Fixpoint drop_missing_prefix (c : vec) : vec :=
   match c with
+  | x :: ((_ :: _) as c') => if is_missing x then drop_missing_prefix c' else c
+  | _ => c
+  end.
+Definition col_minmax (c : vec) : K * K :=
+  match drop_missing_prefix c with
   | [::] => (MISSINGk, MISSINGk)
   | x :: c' => foldl (fun mm a => if is_missing a then mm else
                  (if kltb a mm.1 then a else mm.1, if kltb mm.2 a then a else mm.2)) (x, x) c'
